@@ -79,7 +79,9 @@ fn c01_range_indices() {
     kani::assume(n <= isize::MAX as usize);
     let (lo, hi) = interval(s, e);
     let idx = r.indices(n);
-    assert!(idx.start <= idx.end && idx.end <= n, "C01.range: indices are ordered and within the container");
+    // the VM slices lists, tuples and strings with this result without further checks (run_index: `unreachable!()` /
+    // slice indexing), so the same fact is also a no-panic obligation
+    assert!(idx.start <= idx.end && idx.end <= n, "C01.range C06.range: indices(n) is ordered and never leaves 0..=n");
     let clamp = |x: i128, a: i128, b: i128| if x < a { a } else if x > b { b } else { x };
     let es = clamp(lo, 0, n as i128);
     let ee = clamp(hi, es, n as i128);
